@@ -46,9 +46,10 @@ class Sym(object):
         return id(self)
 
 class SInt(Sym):
-    __slots__ = ('t', 'bits', 'tz', 'fld')
+    __slots__ = ('t', 'bits', 'tz', 'fld', 'aux')
     def __init__(self, t, bits=None, tz=0):
         self.fld = None         # bit-field view (pyvc.bitfield), or None
+        self.aux = None         # ('orneg', x, c): this value is x | c for a negative constant c
         self.t = t
         self.bits = bits        # superset of possibly-set bits if known non-negative, else None
         self.tz = tz            # number of low bits known to be zero (any sign)
@@ -87,6 +88,15 @@ class SIPStr(Sym):
         self.octets = tuple(octets)
     def __repr__(self):
         return "SIPStr(%r)" % (self.octets,)
+
+class SDecStr(Sym):
+    """the decimal text of a (symbolic) non-negative integer, as matched by a
+    \\d+ regex group; int() gives the number back (trusted: int(str(n)) == n)"""
+    __slots__ = ('value',)
+    def __init__(self, value):
+        self.value = value
+    def __repr__(self):
+        return "SDecStr(%r)" % (self.value,)
 
 def is_sym(v):
     return isinstance(v, Sym)
@@ -253,7 +263,37 @@ def int_bitop(opname, x, y):
     """x op y for op in & | ^ with at least one symbolic operand."""
     bx, by = bits_of(x), bits_of(y)
     tx, ty = int_term(x), int_term(y)
+    # a negative constant c: x & c == x - (x & ~c);  x | c == c + (x & ~c)   (~c >= 0; exact for all ints x)
+    for (u, v) in ((x, y), (y, x)):
+        if isinstance(v, int) and not isinstance(v, bool) and v < 0 and isinstance(u, (SInt, SBool)):
+            bu = bits_of(u)
+            if opname == '&' and bu is not None:
+                # u is known to lie in [0, 2**W): only the low W bits of the constant matter
+                m = v & ((1 << bu.bit_length()) - 1)
+                return int_bitop('&', u, m) if m else 0
+            low = int_bitop('&', u, ~v) if ~v != 0 else 0
+            tl = int_term(low)
+            if opname == '&':
+                return mk_int(z3.simplify(int_term(u) - tl))
+            if opname == '|':
+                r = mk_int(z3.simplify(z3.IntVal(v) + tl))
+                if isinstance(r, SInt):
+                    r.aux = ('orneg', u, v)
+                return r
+            raise Unsupported("^ with a negative constant")
     if opname == '&':
+        # (u | c) & m == (u & m) | (c & m)  for a negative constant c and a non-negative constant mask m
+        for (u, v) in ((x, y), (y, x)):
+            if isinstance(u, SInt) and u.aux is not None and u.aux[0] == 'orneg' and isinstance(v, int) and not isinstance(v, bool) and v >= 0:
+                left = int_bitop('&', u.aux[1], v) if isinstance(u.aux[1], Sym) else (u.aux[1] & v)
+                right = u.aux[2] & v
+                if isinstance(left, int):
+                    return left | right
+                return int_bitop('|', left, right) if right else left
+        from . import bitfield as _bf
+        r = _bf.try_binop('&', x, y)
+        if r is not None:
+            return r
         # constant non-negative mask on either side: exact arithmetic encoding
         for (u, tu, bu, v, tv, bv) in ((x, tx, bx, y, ty, by), (y, ty, by, x, tx, bx)):
             if isinstance(v, int) and not isinstance(v, bool) and v >= 0:
@@ -268,6 +308,11 @@ def int_bitop(opname, x, y):
             if w <= _bv_width_limit:
                 return mk_int(_bv_binop('&', tx, ty, w), bx & by)
         raise Unsupported("& on unbounded symbolic operands")
+    if opname == '|':
+        from . import bitfield as _bf
+        r = _bf.try_binop('|', x, y)
+        if r is not None:
+            return r
     if opname in ('|', '^'):
         # one side has its low k bits clear (any sign), the other fits in k bits: no overlap
         for (u, bu, v, bv) in ((x, bx, y, by), (y, by, x, bx)):
